@@ -50,7 +50,7 @@ def plan(tier, seed):
         typed = any(k in sig[0] for k in ("float", "int", "time", "yearDate", "uri", "enum\": [")) or "null]" not in sig[0]
         reps = 6 if any(k in sig[0] for k in ("float", "int", "time", "yearDate", "uri")) else 1
         for i in range(reps):
-            shards.append({"rules": rs, "n_random": 40_000 if reps > 1 else 4_000, "light": 200, "salt": i})
+            shards.append({"rules": rs, "n_random": 250_000 if reps > 1 else 20_000, "light": 1500, "salt": i})
     return shards
 
 
